@@ -37,8 +37,9 @@ def _cases() -> List[dict]:
             for pipelined in (False, True):
                 cases.append({"worker": worker, "case": {"limit": "keepalive_h1", "K": K, "pipelined": pipelined}})
         for K in (1, 2, 3):
-            cases.append({"worker": worker, "case": {"limit": "keepalive_h2", "K": K}})
-        for R in (1, 2, 5):
+            for opening in ("prior", "h2c"):
+                cases.append({"worker": worker, "case": {"limit": "keepalive_h2", "K": K, "opening": opening}})
+        for R in (0, 1, 2, 5):
             for J in (0, 1, 3):
                 for j in range(J + 1):
                     for conn_kind in ("h1", "h2", "h2c"):
@@ -413,9 +414,24 @@ def _keepalive_h2(tape: Tape, world: World, host: AppHost, case: dict, out: Outc
     # streams are opened one after the other: a burst that is on the wire before the server can say
     # anything cannot be "told to stop" in time and is not judged
     concurrent = False
-    steps: List[tuple] = [("send", peer.preface()), ("wait", lambda sc: peer.settings_frames > 0, 5.0)]
+    opening = case.get("opening") or tape.choice(["prior", "prior", "h2c"], "opening")
+    sink: Any = peer
+    if opening == "h2c":
+        # the first request arrives as an HTTP/1.1 request that upgrades the connection: it is request number one
+        from ..peers.h2 import H2cUpgradeParser
+
+        first = _get(tags[sids[0]], b"Connection: Upgrade, HTTP2-Settings\r\nUpgrade: h2c\r\nHTTP2-Settings: "
+                     + peer.settings_payload_b64() + b"\r\n")
+        peer.open_stream(1)
+        steps: List[tuple] = [("send", first + peer.preface()),
+                              ("wait", lambda sc: sc.ended or peer.stream_done(1), 2.0), ("sleep", 0.02)]
+        sink = H2cUpgradeParser(peer)
+        rest = sids[1:]
+    else:
+        steps = [("send", peer.preface()), ("wait", lambda sc: peer.settings_frames > 0, 5.0)]
+        rest = sids
     goaway_before: Dict[int, bool] = {}
-    for sid in sids:
+    for sid in rest:
         def open_one(sc: Script, sid: int = sid) -> None:
             if not sc.ended:
                 goaway_before[sid] = peer.goaway is not None
@@ -426,10 +442,10 @@ def _keepalive_h2(tape: Tape, world: World, host: AppHost, case: dict, out: Outc
             steps.append(("wait", (lambda sid: lambda sc: sc.ended or peer.stream_done(sid))(sid), 2.0))
             steps.append(("sleep", 0.02))
     steps.append(("wait", lambda sc: sc.ended, 1.0))
-    script = Script(world, steps, peer)
+    script = Script(world, steps, sink)
     script.start_at(0.1)
     world.run(end_at=30.0)
-    out.sample = {"worker": world.worker, "limit": "keepalive_h2", "K": K, "sent": nsend, "concurrent": concurrent}
+    out.sample = {"worker": world.worker, "limit": "keepalive_h2", "K": K, "sent": nsend, "opening": opening}
     if world.result != "returned":
         bad("server-survives", f"worker_serve ended with {world.result}: {world.exception!r}")
     served = [i.tag for i in host.instances if i.tag in tags.values()]
@@ -452,7 +468,7 @@ def _keepalive_h2(tape: Tape, world: World, host: AppHost, case: dict, out: Outc
 def _max_requests(tape: Tape, world: World, host: AppHost, case: dict, out: Outcome) -> None:
     sim = world.sim
     bad = _bad(out, world, "max_requests")
-    R = case.get("R") or tape.choice([1, 2, 5, 3, 8], "R")
+    R = case["R"] if "R" in case else tape.choice([1, 2, 5, 0, 3, 8], "R")
     J = case["J"] if "J" in case else tape.choice([0, 1, 3, 5], "J")
     j = case["j"] if "j" in case else tape.draw(J + 1, "j")
     per_conn = case.get("per_conn") or 1 + tape.draw(3, "per_conn")
